@@ -469,6 +469,54 @@ func genLimits(g *core.Gen, r *core.Rand, keys []keyT) []caseSpec {
 			}
 		}
 	}
+	// CLTV / CSV operands are 5-byte script numbers (up to 2^39-1) compared with 32-bit transaction fields:
+	// operands whose low 32 bits alone would satisfy the lock (2^32+k against nLockTime >= k), with every
+	// type / threshold / disable-bit pattern in the low and in the high part, against satisfied / unsatisfied
+	// locks of both types and final / non-final sequences
+	{
+		const k = 100
+		cltvOps := []int64{1<<32 - 1, 1 << 32, 1<<32 + k, 1<<32 + k + 1, 1<<32 + 500000000 + k, 1<<33 + k, 1<<32 + 1<<31 + k,
+			1<<39 - 1, 1<<39 - 1<<32 + k, 0x55<<32 + k, 1<<32 + 499999999, 1<<31 + k, k, 500000000 + k, -1, -(1<<32 + k), -k}
+		cltvLocks := []uint32{k, k - 1, 500000000 + k, 500000000 + k - 1, 0xffffffff, 1<<31 + k, 0}
+		csvOps := []int64{1<<32 + k, 1<<32 + 1<<22 + k, 1<<32 + 1<<31 + k, 1<<39 - 1, 1<<33 + 5, 1<<32 + 0xffff, 0x55<<32 + 1<<22 + 5,
+			1<<31 + k, 1<<22 + k, k, -(1<<32 + k)}
+		csvSeqs := []uint32{k, 1<<22 | k, 0xffffffff, 1<<31 | k, 0xffff, 1<<22 | 0xffff, k - 1}
+		emitWide := func(lockOp byte, n int64, sh txShape) {
+			for _, fl := range []txscript.ScriptFlags{txscript.StandardVerifyFlags, consensusAll} {
+				for _, w := range []int{wBare, wP2WSH, wTapscript} {
+					if fl != consensusAll && w != wBare {
+						continue
+					}
+					var tap *tapInfo
+					if w == wTapscript {
+						tap = &tapInfo{internal: keys[0].priv.PubKey(), leafVer: 0xc0}
+					}
+					b := buildSpend(r, w, cat(pushBytes(scriptNumBytes(n)), []byte{lockOp, 0x75, 0x51}), sh, fl, tap)
+					out = append(out, caseSpec{class: "gen:limit:locktime-wide-operand:" + wrapperName[w], sp: b.finish(nil, nil)})
+				}
+			}
+		}
+		for _, n := range cltvOps {
+			for _, lt := range cltvLocks {
+				for _, seq := range []uint32{0xfffffffe, 0xffffffff} {
+					if seq == 0xffffffff && lt != k && lt != 500000000+k {
+						continue
+					}
+					emitWide(0xb1, n, txShape{version: 2, lockTime: lt, sequence: seq, nIn: 1, idx: 0, nOut: 1, amount: 5000})
+				}
+			}
+		}
+		for _, n := range csvOps {
+			for _, seq := range csvSeqs {
+				for _, ver := range []int32{2, 1} {
+					if ver == 1 && seq != k {
+						continue
+					}
+					emitWide(0xb2, n, txShape{version: ver, lockTime: 0, sequence: seq, nIn: 1, idx: 0, nOut: 1, amount: 5000})
+				}
+			}
+		}
+	}
 	// CHECKMULTISIG key count 19 / 20 / 21 (PUBKEY_COUNT) and signature count nKeys / nKeys+1 (SIG_COUNT)
 	for _, nk := range []int{0, 1, 19, 20, 21} {
 		for _, ns := range []int{0, nk, nk + 1} {
